@@ -197,6 +197,14 @@ def c06(pid, tier, seed, selftest=False):
                               "file": {"hsrc": 0, "hdr": "ok", "recs": [{"src": 0, "idx": j} for j in range(len(ch))],
                                        "cut": -1, "trail": 0},
                               "rs": [], "ws": [], "fs": [], "rgen": [0, 70000, 5000][i % 3], "id": "o.%s%d" % (api[0], i)})
+    # every plaintext length 0..2200 (thorough: ..8300) as one chunk through the public key API, and on top of one full chunk:
+    # a buffer of some "small record" size, a block or padding boundary of a primitive would show at its exact length
+    for L in range(0, 8300 if thorough else 2200):
+        scenarios.append({"op": "enc", "api": "key", "aad": "key", "cs": 65536, "plen": L if L % 5 else 65536 + L, "rs": [], "ws": [], "fs": [],
+                          "kseed": 70 + L % 7, "pseed": 1 + L % 3, "rseed": 1 + L % 4, "id": "len.%d" % L})
+    for L in range(0, 2200, 37):
+        scenarios.append({"op": "enc", "api": "pass", "aad": "pass", "cs": 65536, "plen": L, "rs": [], "ws": [], "fs": [],
+                          "kseed": 70 + L % 7, "pseed": 1 + L % 3, "pwseed": 1 + L % 5, "id": "lenp.%d" % L})
     # conforming files read through sources that split the HEADER fields (magic, handshake message / salt) across calls
     hdr_rs = [[1] * 8, ["allbut1"] * 4, [1, "allbut1", 1, "allbut1", 1, "allbut1"], [3, 1, 100, 27, 1]]
     for i, rs in enumerate(hdr_rs):
@@ -210,7 +218,7 @@ def c06(pid, tier, seed, selftest=False):
                               "rs": rs, "ws": [], "fs": [], "rgen": [0, 7][i % 2], "id": "oh.%s%d" % (api[0], i)})
     for s in scenarios:
         if s["op"] == "enc":
-            rep.case(cs_.key_of(s), len(s["exp"]["chunks"]) > 1)
+            rep.case(cs_.key_of(s), len(s.get("exp", {}).get("chunks", [])) > 1 or s["plen"] > 0)
         else:
             rep.case(cs_.key_of(s), len(s["srcs"][0]["chunks"]) > 1)
     for s in scenarios[:1] + scenarios[-2:]:
@@ -406,13 +414,15 @@ def c07(pid, tier, seed, selftest=False):
     hists += [["kenc"] * 6]                     # library only, every second one with an interrupted read
     n_lo = len(hists)
     hists += [["kenc"] * 4]                     # library only, to recipients that force all-zero shared secrets: must be refused
+    n_big = len(hists)
+    hists += [["kenc"] * 2]                     # library only, plaintexts of 2.7 MiB (43 chunks: counters past any batch size)
     keys = cli.make_keys(pid, tpl, seed, [("alice", b"alice-pw"), ("bob", b"bob-pw")])
     all_evs = []
 
     def one(i_h):
         i, h = i_h
-        return exec_history(pid, tpl, seed, "h%d" % i, h, keys, 70000 if i % 5 == 0 else 10, lib_only=(i >= n_model), intr=(n_intr <= i < n_lo),
-                            lo_recipient=(i >= n_lo))
+        return exec_history(pid, tpl, seed, "h%d" % i, h, keys, 2700000 if i >= n_big else (70000 if i % 5 == 0 else 10), lib_only=(i >= n_model),
+                            intr=(n_intr <= i < n_lo), lo_recipient=(n_lo <= i < n_big))
     with cf.ThreadPoolExecutor(max_workers=NCPU) as ex:
         for evs in ex.map(one, list(enumerate(hists))):
             all_evs.append(evs)
@@ -446,16 +456,23 @@ import struct
 
 
 def parse_layout(data, h):
-    """(nrec, framing_ok): walk the length fields of header ++ records."""
+    """(nrec, framing_ok): walk header ++ records by the cleartext fields of WireFormat!ChunkHeader (record i carries the
+    counter i, only the last record carries the final flag 1, every other one 0, and its length field says where the next
+    record starts); a region that is not such a record (e.g. zero bytes left behind by a pre-sized file) breaks the framing."""
     off = h
     n = 0
+    ok = True
+    last_flag = None
     while off < len(data):
         if off + 32 > len(data):
             return n, False
-        ln = struct.unpack(">I", data[off + 12:off + 16])[0]
+        ctr, flag, ln = struct.unpack(">QII", data[off:off + 16])
+        if ctr != n or flag not in (0, 1) or last_flag == 1:
+            ok = False
+        last_flag = flag
         off += 32 + ln
         n += 1
-    return n, off == len(data)
+    return n, ok and off == len(data) and last_flag == 1
 
 
 def cli_clear(pid, tpl, seed, idx, plen, mode):
@@ -562,7 +579,8 @@ def c08(pid, tier, seed, selftest=False):
     rep.sample(one[1])
     run_oneshot(rep, pid, "clear", "noise", one, tpl, seed, "Trace_Noise", nproc=16, only_prefixes=["C08_"])
     # CLI level
-    jobs = [(i, [0, 5, 70000, 131072][i % 4], "key" if i % 3 else "pass") for i in range(70 if thorough else 14)]
+    # sizes include exact multiples of the chunk size at and above 1 MiB (where a tool might start to pre-size its output)
+    jobs = [(i, [0, 5, 70000, 131072, 1048576, 1114112, 2097152 + 65536][i % 7], "key" if i % 3 else "pass") for i in range(70 if thorough else 14)]
     with cf.ThreadPoolExecutor(max_workers=NCPU) as ex:
         evs = list(ex.map(lambda j: cli_clear(pid, tpl, seed, *j), jobs))
     wd = workdir(pid, "run-cliclear", clean=True)
